@@ -12,8 +12,7 @@
     `childOut` / `childExit` are the two things that can happen on a child's pipe.
   * observable events: `openRead` (the only `open` of the program), `spawnCall` (`spawn()` was called
     — the only place a child is created), `report` (delnum byte, body, NUL written to descriptor 1),
-    `hello` (the `auto_spawn` byte written at start-up), `overread` (qmail-rspawn's `report()` would
-    read beyond the end of the child's output: see notes/C18.md; the model stops there).
+    `hello` (the `auto_spawn` byte written at start-up).
 
   Not modelled: out-of-memory (`flagabort`), write errors on descriptor 1 (`okwrite`), EINTR.
   Core Lean only.
@@ -36,7 +35,6 @@ inductive Ev
   | openRead (path : Bytes)
   | spawnCall (slot : Nat) (sender recip : Bytes) (at_ : Nat)
   | report (delnum : Nat) (body : Bytes)
-  | overread
   deriving DecidableEq, Repr
 
 structure St where
@@ -48,7 +46,6 @@ structure St where
   slots : List (Option Bytes) := List.replicate Nq.Gen.auto_spawn none
   plan : List Nat := []
   reading : Bool := true
-  stopped : Bool := false      -- set by `overread`
   deriving Repr
 
 /-! The fixed texts of `docmd()` (`E_TOOBIG` …; first byte = report letter) come from `Nq.Gen.SpawnTexts`,
@@ -148,30 +145,35 @@ def rsResult : Option Byte → Bytes → Int
          else rsResult none rest)
       else rsResult (if first.isSome then first else some c) rest
 
-/-- qmail-rspawn.c `report()`; `none` = the second `substdio_puts` has no terminating NUL inside
-the child's output (out-of-bounds read in the C code) -/
-def rreport (wstat : Nat) (s : Bytes) : Option Bytes :=
-  if wstat % 128 ≠ 0 then some R_CRASHED
-  else if wstat / 256 = R_SOFTCODE then some R_SOFT
-  else if wstat / 256 ≠ 0 then some R_HARD
-  else if s = [] then some R_NOOUTPUT
-  else
-    let result := rsResult none s
-    let orr : Int := if s.head? = some 115 then 0 else if s.head? = some 104 then -1 else result
-    let letter : Byte := if orr = 1 then 75 else if orr = 0 then 90 else 68
-    let t := s.drop 1
-    let a := cstr t
-    if a.length = t.length then some [letter]       -- no NUL after the first byte: nothing more
-    else match t.drop (a.length + 1) with
-      | [] => some (letter :: a)
-      | c :: v =>
-          if result ≤ orr ∧ (c = 90 ∨ c = 68 ∨ c = 75) then
-            (if v.contains 0 then some (letter :: a ++ cstr v) else none)
-          else some (letter :: a)
+/-- `orr`: the verdict after the override by the first byte of the output (`s` soft, `h` hard) -/
+def rsOrr (s : Bytes) : Int :=
+  if s.head? = some 115 then 0 else if s.head? = some 104 then -1 else rsResult none s
 
-def reportBody (k : Kind) (wstat : Nat) (out : Bytes) : Option Bytes :=
+def rsLetter (orr : Int) : Byte := if orr = 1 then 75 else if orr = 0 then 90 else 68
+
+/-- the two pieces of the child's output that `report()` copies after the status letter: `s+1` up to
+the first NUL at an index ≥ 1 (nothing if there is none) and — if the byte after that NUL is Z, D or
+K and `more` (= `result <= orr`) — the bytes after it up to the next NUL **or the end of the child's
+output** (`byte_chr(s+k+1,len-k-1,0)`, commit 9e1dfcc; before it an unbounded `substdio_puts`). -/
+def rsText (s : Bytes) (more : Bool) : Bytes × Bytes :=
+  let t := s.drop 1
+  let a := cstr t
+  match t.drop (a.length + 1) with
+  | [] => (if a.length = t.length then [] else a, [])
+  | c :: v => if more = true ∧ (c = 90 ∨ c = 68 ∨ c = 75) then (a, cstr v) else (a, [])
+
+/-- qmail-rspawn.c `report()` -/
+def rreport (wstat : Nat) (s : Bytes) : Bytes :=
+  if wstat % 128 ≠ 0 then R_CRASHED
+  else if wstat / 256 = R_SOFTCODE then R_SOFT
+  else if wstat / 256 ≠ 0 then R_HARD
+  else if s = [] then R_NOOUTPUT
+  else [rsLetter (rsOrr s)] ++ (rsText s (decide (rsResult none s ≤ rsOrr s))).1
+         ++ (rsText s (decide (rsResult none s ≤ rsOrr s))).2
+
+def reportBody (k : Kind) (wstat : Nat) (out : Bytes) : Bytes :=
   match k with
-  | .l => some (lreport wstat out)
+  | .l => lreport wstat out
   | .r => rreport wstat out
 
 /-! ### the select loop, one wake-up at a time -/
@@ -185,10 +187,7 @@ inductive Op
 def childExit (k : Kind) (st : St) (slot wstat : Nat) : St × List Ev :=
   match st.slots.getD slot none with
   | none => (st, [])
-  | some out =>
-      match reportBody k wstat out with
-      | some body => ({ st with slots := st.slots.set slot none }, [.report slot body])
-      | none => ({ st with stopped := true }, [.overread])
+  | some out => ({ st with slots := st.slots.set slot none }, [.report slot (reportBody k wstat out)])
 
 def ostep (k : Kind) (st : St) : Op → St × List Ev
   | .cmd bytes => if st.reading then cfeed st bytes else (st, [])
@@ -201,7 +200,6 @@ def ostep (k : Kind) (st : St) : Op → St × List Ev
 def orun (k : Kind) : St → List Op → St × List Ev
   | st, [] => (st, [])
   | st, op :: rest =>
-      if st.stopped then (st, []) else
       let r := ostep k st op
       let r2 := orun k r.1 rest
       (r2.1, r.2 ++ r2.2)
@@ -211,16 +209,21 @@ status 0, lowest slot first -/
 def drain (k : Kind) : St → Nat → Nat → St × List Ev
   | st, 0, _ => (st, [])
   | st, fuel + 1, i =>
-      if st.stopped then (st, []) else
       let r := childExit k st i 0
       let r2 := drain k r.1 fuel (i + 1)
       (r2.1, r.2 ++ r2.2)
 
-/-- one whole run of the program -/
-def run (k : Kind) (plan : List Nat) (script : List Op) : St × List Ev :=
-  let r := orun k { plan := plan } script
-  let r2 := drain k { r.1 with reading := false } Nq.Gen.auto_spawn 0
+/-- end of input on descriptor 0 (`flagreading = 0`) -/
+def stopReading (st : St) : St := { st with reading := false }
+
+/-- one whole run of the program from state `st0` -/
+def runFrom (k : Kind) (st0 : St) (script : List Op) : St × List Ev :=
+  let r := orun k st0 script
+  let r2 := drain k (stopReading r.1) Nq.Gen.auto_spawn 0
   (r2.1, .hello Nq.Gen.auto_spawn :: r.2 ++ r2.2)
+
+/-- one whole run of the program -/
+def run (k : Kind) (plan : List Nat) (script : List Op) : St × List Ev := runFrom k { plan := plan } script
 
 def usedCount (st : St) : Nat := (st.slots.filter Option.isSome).length
 
